@@ -24,6 +24,7 @@ var Specs = map[string]*core.Spec{
 	"C08": spec("C08", "prepare/save/recover between replicas of same and different snapshot formats, writes between prepare and end of save, stop signal during save/recover, short reads, streamed reads opened before and consumed after an install, crash images during install; non-trivial = completed install with interleaved writes or cross format, or interruption inside recover", "install-complete"),
 	"C09": spec("C09", "range reads (unary and streamed) with limits placed at m-1, m, m+1 relative to the number of matching pairs, all flags, wildcard/inverted bounds, occasional near-2MiB values for size cuts; non-trivial = limit in {m-1,m,m+1} or a size-cut/multi-message stream", "limit=m-1", "limit=m", "limit=m+1"),
 	"C10": spec("C10", "W1 part of C10: revision carried by every applied mutation equals its log index, including transactions whose taken branch is empty", "txn-applied"),
+	"C11": spec("C11", "W1 part of C11 (first sentence): the applied-index listener - what a follower's notification queue hangs on - is told about an index only when a read on the same node already observes it; checked from inside the listener callback during every Update", "apply-notification-checked"),
 	"C12": spec("C12", "C01 histories restricted to >=6 adversarial keys (max length, 0x00/0xFF heavy, mutually prefixing, bookkeeping names) plus an inline encode/decode/order monitor over all key pairs; non-trivial = pool has a strict-prefix pair with 0x00/0xFF continuation or a key >=1019 bytes. Model-based exploration with generated inputs, not a schedule search", "wildcard-end"),
 }
 
